@@ -5,6 +5,7 @@ import re
 from pathlib import Path
 
 S = Path(__file__).resolve().parent.parent / "seeded"
+notes = json.loads((S / "notes.json").read_text()) if (S / "notes.json").exists() else {}
 rows = []
 for d in sorted(S.iterdir()):
     if not d.is_dir():
@@ -22,8 +23,17 @@ for d in sorted(S.iterdir()):
     confirmed = "pending" if conf is None else (
         "yes" if conf["patch_applies"] and conf["demo_exit_without_change"] == 0 and conf["demo_exit_with_change"] != 0
         and "passed" in conf["test_suite_with_change"] and "failed" not in conf["test_suite_with_change"] else f"NO {conf}")
+    others = []
+    for f in sorted(d.glob("detect-*.txt")):
+        t = f.read_text()
+        e2 = re.search(r"^exit=(\d+)", t, re.M)
+        if e2 and e2.group(1) == "1":
+            others.append(f.stem.split("-")[1])
+    if others and caught != "CAUGHT":
+        caught = "caught by " + "/".join(others)
+    note = notes.get(d.name, "")
     rows.append((d.name, meta.get("property", ""), (meta.get("summary") or "")[:200].replace("|", "/").replace("\n", " "),
-                 confirmed, caught, m.group(1) if m else "", first))
+                 confirmed, caught, m.group(1) if m else "", (first + (" -- " if first and note else "") + note).replace("|", "/")))
 out = ["# Seeded changes", "",
        "Written by independent sub-agents that saw only the text of one property and a scratch worktree.",
        "`confirmed` = demo passes without / fails with the change and the complete repository test-suite passes with it",
@@ -32,5 +42,16 @@ out = ["# Seeded changes", "",
        "| change | property | what it does | confirmed | check | violations | first violation |", "|---|---|---|---|---|---|---|"]
 for r in rows:
     out.append("| " + " | ".join(r) + " |")
+per = {}
+for r in rows:
+    p = per.setdefault(r[1], [0, 0, []])
+    p[0] += 1
+    if r[4].startswith("CAUGHT") or r[4].startswith("caught by"):
+        p[1] += 1
+    else:
+        p[2].append(r[0])
+out += ["", "## Per property", "", "| property | seeded | caught | not caught |", "|---|---|---|---|"]
+for k in sorted(per):
+    out.append(f"| {k} | {per[k][0]} | {per[k][1]} | {', '.join(per[k][2])} |")
 (S / "README.md").write_text("\n".join(out) + "\n")
 print(f"{len(rows)} seeded changes; caught: {sum(1 for r in rows if r[4] == 'CAUGHT')}, missed: {sum(1 for r in rows if r[4] == 'missed')}")
